@@ -238,6 +238,20 @@ def check(facts, rep, tier, cfg):
     # ---- R2 UDP routing
     rep.rule("C01.R2", "UDP reply routing: id maps, entry roles, reply lookup/target/socket/header, server flow id")
     if has_client:
+        ent = crate.adts.get("rusty_penguin_lib::client::ClientIdMapEntry") if hasattr(crate, "adts") else None
+        sock_ty = None
+        for var in (ent or {}).get("variants", []):
+            for fld in var["fields"]:
+                if fld["name"] == "socket":
+                    sock_ty = fld["ty"]
+        if sock_ty is None:
+            rep.bad("C01.R2", "entry-owns-socket", "", "ClientIdMapEntry.socket not found (anchor missing)")
+        elif "Weak<" in sock_ty or not ("Arc<" in sock_ty or sock_ty.endswith("UdpSocket")):
+            rep.bad("C01.R2", "entry-owns-socket", "penguin/src/client/mod.rs",
+                    "a UDP client entry holds its reply socket as `%s`: the entry can outlive the socket it must reply from (the relay socket of "
+                    "a closed association), and a client that is matched to such an entry gets no replies" % sock_ty)
+        else:
+            rep.ok("C01.R2", "entry-owns-socket", "penguin/src/client/mod.rs", "socket: %s (the entry keeps its reply socket alive)" % sock_ty, nontrivial=False)
         for b in crate.bodies:
             if b.name == "new" and b.j.get("impl_self", {}).get("s", "").endswith("ClientIdMapEntry"):
                 tr = Tracer(facts, b)
